@@ -1,3 +1,205 @@
 package rules
 
-func runControls(checkerDir string) ([]string, error) { return nil, nil }
+import (
+	"fmt"
+	"go/token"
+	"go/types"
+	"os"
+	"strings"
+
+	"golang.org/x/tools/go/packages"
+	"golang.org/x/tools/go/ssa"
+	"golang.org/x/tools/go/ssa/ssautil"
+
+	"verif/checker/boundx"
+	"verif/checker/ssax"
+)
+
+// runControls loads the fixture package and requires each engine primitive to
+// fire on the broken twin and stay silent on the sound one.
+func runControls(checkerDir string) ([]string, error) {
+	env := append(os.Environ(), "GOFLAGS=-mod=mod", "GOPROXY=off", "GOSUMDB=off", "GOWORK=off", "GOTOOLCHAIN=local", "GOOS=linux", "GOARCH=amd64", "CGO_ENABLED=0")
+	pkgs, err := packages.Load(&packages.Config{Mode: packages.LoadAllSyntax, Dir: checkerDir, Env: env}, "./fixtures/ctl")
+	if err != nil || len(pkgs) != 1 || len(pkgs[0].Errors) > 0 {
+		return nil, fmt.Errorf("cannot load fixture package: %v %v", err, pkgs)
+	}
+	prog, sps := ssautil.AllPackages(pkgs, ssa.InstantiateGenerics)
+	prog.Build()
+	sp := sps[0]
+	var fns []*ssa.Function
+	for _, m := range sp.Members {
+		if f, ok := m.(*ssa.Function); ok {
+			fns = append(fns, f)
+		}
+	}
+	tt := sp.Type("T")
+	ptrTo := func(t *ssa.Type) types.Type { return types.NewPointer(t.Type()) }
+	ms := prog.MethodSets.MethodSet(tt.Type())
+	_ = ms
+	method := func(name string) *ssa.Function {
+		for _, m := range sp.Members {
+			_ = m
+		}
+		ptr := prog.MethodSets.MethodSet(ptrTo(tt))
+		sel := ptr.Lookup(sp.Pkg, name)
+		if sel == nil {
+			return nil
+		}
+		return prog.MethodValue(sel)
+	}
+	for _, n := range []string{"fatal", "LockGood", "LockBad"} {
+		if f := method(n); f != nil {
+			fns = append(fns, f)
+		}
+	}
+	nr := ssax.ComputeNoRet(fns)
+	env2 := boundx.NewEnv([]*ssa.Package{sp})
+	g := func(name string) *ssax.Graph {
+		f := sp.Func(name)
+		if f == nil {
+			f = method(name)
+		}
+		return ssax.NewGraph(f, nr)
+	}
+	var fired []string
+	fail := func(format string, a ...any) ([]string, error) {
+		return nil, fmt.Errorf(format, a...)
+	}
+	unproved := func(name string) int {
+		n := 0
+		for _, s := range boundx.New(g(name), env2, nil).Sites() {
+			if !s.OK {
+				n++
+			}
+		}
+		return n
+	}
+	// bounds
+	if unproved("BoundsBad") == 0 || unproved("BoundsGood") != 0 {
+		return fail("bounds control: bad=%d good=%d", unproved("BoundsBad"), unproved("BoundsGood"))
+	}
+	fired = append(fired, "bounds")
+	// no-return pruning
+	if !nr.Names[ssax.FuncName(method("fatal"))] {
+		return fail("no-return control: fatal not classified")
+	}
+	if unproved("GuardBad") == 0 || unproved("GuardGood") != 0 {
+		return fail("guard control: bad=%d good=%d", unproved("GuardBad"), unproved("GuardGood"))
+	}
+	fired = append(fired, "no-return-pruning")
+	// memory-equivalent loads
+	if unproved("CanonBad") == 0 || unproved("CanonGood") != 0 {
+		return fail("canon control: bad=%d good=%d", unproved("CanonBad"), unproved("CanonGood"))
+	}
+	fired = append(fired, "memory-equivalent-loads")
+	// must-pass-through
+	leaks := func(name string) int {
+		gr := g(name)
+		var open *ssa.Call
+		for _, c := range gr.Calls("os.Open") {
+			open = c
+		}
+		errv := ssax.Extracted(open, 1)
+		n := 0
+		for _, b := range gr.Fn.Blocks {
+			if !gr.Reach[b.Index] || !ssax.KnownNil(gr.FactsAt(b.Index), errv, true) {
+				continue
+			}
+			if id := gr.Idom(b.Index); id >= 0 && ssax.KnownNil(gr.FactsAt(id), errv, true) {
+				continue
+			}
+			n += len(gr.MustPass(ssax.Point{Block: b.Index}, func(i ssa.Instruction) bool {
+				c := ssax.CallOf(i)
+				return c != nil && ssax.CalleeName(c) == "(*os.File).Close"
+			}, false))
+		}
+		return n
+	}
+	if leaks("CloseBad") == 0 || leaks("CloseGood") != 0 {
+		return fail("must-pass control: bad=%d good=%d", leaks("CloseBad"), leaks("CloseGood"))
+	}
+	fired = append(fired, "must-pass-through")
+	// lockset
+	held := func(name string) bool {
+		f := method(name)
+		delete(lockCache, f)
+		gr := ssax.NewGraph(f, nr)
+		li := &lockInfo{in: map[int]map[string]bool{}, g: gr}
+		_ = li
+		ok := false
+		gr.Instrs(func(i ssa.Instruction) {
+			u, isU := i.(*ssa.UnOp)
+			if !isU || u.Op != token.MUL {
+				return
+			}
+			fa, isFA := u.X.(*ssa.FieldAddr)
+			if !isFA || ssax.FieldOf(fa).Name() != "count" {
+				return
+			}
+			ok = locksetWith(gr, f, u)["t.mu"]
+		})
+		return ok
+	}
+	if held("LockBad") || !held("LockGood") {
+		return fail("lockset control: bad=%v good=%v", held("LockBad"), held("LockGood"))
+	}
+	fired = append(fired, "lockset")
+	// explorer
+	normalAfterFail := func(name string) bool {
+		gr := g(name)
+		var st *ssa.Store
+		gr.Instrs(func(i ssa.Instruction) {
+			if s, ok := i.(*ssa.Store); ok {
+				if k, ok := ssax.ConstBool(s.Val); ok && k {
+					st = s
+				}
+			}
+		})
+		ex := &ssax.Explorer{G: gr}
+		for _, e := range ex.Run(ssax.PointAt(st)) {
+			if e.Kind == ssax.ExitReturn {
+				return true
+			}
+		}
+		return false
+	}
+	if !normalAfterFail("FlagBad") || normalAfterFail("FlagGood") {
+		return fail("explorer control: bad=%v good=%v", normalAfterFail("FlagBad"), normalAfterFail("FlagGood"))
+	}
+	fired = append(fired, "path-sensitive-explorer")
+	// all paths
+	guarded := func(name string) bool {
+		gr := g(name)
+		var use *ssa.Call
+		var nameV ssa.Value
+		for _, c := range gr.Calls(sp.Pkg.Path() + ".use") {
+			use = c
+			nameV = c.Call.Args[0]
+		}
+		return onAllPaths(gr, use, nameV, func(f ssax.Fact) bool {
+			c, ok := f.Cond.(*ssa.Call)
+			return ok && f.Val && (strings.HasSuffix(ssax.CalleeName(&c.Call), ".hasA") || strings.HasSuffix(ssax.CalleeName(&c.Call), ".hasD"))
+		})
+	}
+	if guarded("AllPathsBad") || !guarded("AllPathsGood") {
+		return fail("all-paths control: bad=%v good=%v", guarded("AllPathsBad"), guarded("AllPathsGood"))
+	}
+	fired = append(fired, "all-paths-disjunction")
+	// edge facts
+	gated := func(name string) bool {
+		gr := g(name)
+		for _, r := range gr.Returns() {
+			if ssax.IsNil(r.Results[0]) {
+				continue
+			}
+			return hasFact(gr.FactsAtInstr(r), true, func(v ssa.Value) bool { _, ok := v.(*ssa.Parameter); return ok }) &&
+				hasFact(gr.FactsAtInstr(r), true, func(v ssa.Value) bool { b, ok := v.(*ssa.BinOp); return ok && b.Op == token.EQL })
+		}
+		return false
+	}
+	if gated("GateBad") || !gated("GateGood") {
+		return fail("edge-fact control: bad=%v good=%v", gated("GateBad"), gated("GateGood"))
+	}
+	fired = append(fired, "edge-facts")
+	return fired, nil
+}
